@@ -18,8 +18,7 @@ def concurrent_runs(arg):
     if scn.get("output") is None:
         scn["output"] = S.all_sinks_output(scn)
     strat = E.make_strategy(stratspec, rng)
-    files = detsched.ENGINE_FILES + ("uberjob/_run.py", "uberjob/_plan.py", "uberjob/_registry.py", "uberjob/_transformations/pruning.py",
-                                     "uberjob/_transformations/__init__.py", "uberjob/_transformations/caching.py")
+    files = detsched.ENGINE_FILES + ("uberjob/_run.py", "uberjob/_plan.py", "uberjob/_registry.py", "uberjob/_transformations/")
     sched = detsched.Scheduler(strat, preempt_files=files, opcode=False, step_budget=600000)
     ctx = E.Ctx(sched)
     b = S.build(scn, ctx)
